@@ -107,23 +107,32 @@ denseonlinegen-mutants: coq
 
 # the dense-time offline visitor is re-translated from the Python source on every build (fail-closed, as above: C04 is then reported as no
 # longer shown); DenseOfflineGenCorrect.v re-proves, against the new text, that every generated function equals its hand model
-# (the four window loops, intersection(), visitVariable / visitConstant stay hand-modelled and are pinned by digest)
+# (the four window loops: DenseOfflineGenWinCorrect.v; intersection(), visitVariable / visitConstant stay hand-modelled and are pinned by digest);
+# the visitPredicate overrides of the IA-STL dense offline visitors are translated by tools/py2coq_denseoffline_ia.py (DenseOfflineIAGen.v,
+# DenseOfflineIAGenCorrect.v: equal to DenseIA.ia_pred with the kind of the variant, C06)
 denseofflinegen:
 	@mkdir -p build
 	python3 tools/py2coq_denseoffline.py $(REPO) build/DenseOfflineGen.v.new
+	python3 tools/py2coq_denseoffline_ia.py $(REPO) build/DenseOfflineIAGen.v.new
 	@cmp -s build/DenseOfflineGen.v.new coq/theories/DenseOfflineGen.v || cp build/DenseOfflineGen.v.new coq/theories/DenseOfflineGen.v
+	@cmp -s build/DenseOfflineIAGen.v.new coq/theories/DenseOfflineIAGen.v || cp build/DenseOfflineIAGen.v.new coq/theories/DenseOfflineIAGen.v
 
-# differential check of the FULL translation (--all: the four window loops included) against the Python functions (not part of `all`)
+# differential check of the translation (the four window loops included; --all is the default now) against the Python functions (not part of `all`)
 denseofflinegen-check: coq
 	@mkdir -p build/denseofflinegen_check
 	python3 tools/py2coq_denseoffline.py $(REPO) build/denseofflinegen_check/DenseOfflineGenAll.v --all
 	cd build/denseofflinegen_check && timeout 600 coqc -Q ../../coq/theories RV -Q . Chk DenseOfflineGenAll.v
 	PYTHONDONTWRITEBYTECODE=1 PYTHONPATH=$(REPO) /venv/bin/python harness/denseofflinegen_check.py --gen build/denseofflinegen_check/DenseOfflineGenAll.v --module Chk.DenseOfflineGenAll build/denseofflinegen_check/Cases.v
 	cd build/denseofflinegen_check && timeout 3600 coqc -Q ../../coq/theories RV -Q . Chk Cases.v
+	PYTHONDONTWRITEBYTECODE=1 PYTHONPATH=$(REPO) /venv/bin/python harness/denseofflinegen_check.py --n 1000 --seed 20260927 --only '_timed_operation$$' --gen build/denseofflinegen_check/DenseOfflineGenAll.v --module Chk.DenseOfflineGenAll build/denseofflinegen_check/CasesWin.v
+	cd build/denseofflinegen_check && timeout 3600 coqc -Q ../../coq/theories RV -Q . Chk CasesWin.v
+	PYTHONDONTWRITEBYTECODE=1 PYTHONPATH=$(REPO) /venv/bin/python harness/denseofflinegen_ia_check.py build/denseofflinegen_check/CasesIA.v
+	cd build/denseofflinegen_check && timeout 3600 coqc -Q ../../coq/theories RV -Q . Chk CasesIA.v
 
 # semantic mutations + harmless rewrites of scratch copies of the visitor: translator verdict / first lemma that fails
 denseofflinegen-mutants: coq
 	python3 tools/denseofflinegen_mutants.py
+	python3 tools/denseofflinegen_ia_mutants.py
 
 # the pastifiers and the horizon visitors (rtamt/pastifier/{ltl,stl}/*.py) are re-translated on every build (fail-closed, as above: C03 is then
 # reported as no longer shown); PastifyGenCorrect.v re-proves, against the new text, that the generated functions compute the hand model
